@@ -35,9 +35,14 @@ MAX_RSA = [3072]   # 4096-bit keys only in the thorough tier (export with a pass
 ALL_TYPES = ["oct", "RSA", "P-256", "P-384", "P-521", "secp256k1", "Ed25519", "Ed448", "X25519", "X448"]
 
 
+WS = [b" ", b"\n", b"\r\n", b"\t", b"\x0b", b"\x0c", b""]
+# secrets whose first / last octets are blanks or line breaks: they are octets of the key like any other
+oct_bordered = st.tuples(st.sampled_from(WS), st.binary(min_size=1, max_size=40), st.sampled_from(WS)).map(lambda t: {"kty": "oct", "k": t[0] + t[1] + t[2]})
+
+
 def any_key():
     return st.sampled_from(ALL_TYPES).flatmap(
-        lambda t: gk.oct_key(0, 96) if t == "oct" else gk.rsa_key(1024, MAX_RSA[0]) if t == "RSA" else gk.ec_key(t) if t in CURVES else gk.okp_key(t))
+        lambda t: st.one_of(gk.oct_key(0, 96), oct_bordered) if t == "oct" else gk.rsa_key(1024, MAX_RSA[0]) if t == "RSA" else gk.ec_key(t) if t in CURVES else gk.okp_key(t))
 
 
 def params_for(kty):
@@ -270,7 +275,7 @@ OTHER_VALUES = [None, True, 7, 1.5, "not base64 !!", ["a"], {"a": 1}, [], ""]
 
 @st.composite
 def mal_cases(draw):
-    mut = draw(st.sampled_from(["delete", "retype", "retype", "retype", "use-keyops", "bad-base64", "len1mod4", "partial-crt", "partial-crt", "coordinate", "coordinate", "oth", "padding", "crt-inconsistent"]))
+    mut = draw(st.sampled_from(["delete", "retype", "retype", "retype", "use-keyops", "bad-base64", "len1mod4", "partial-crt", "partial-crt", "coordinate", "coordinate", "oth", "padding", "crt-inconsistent", "empty-number"]))
     if mut in ("partial-crt", "oth", "crt-inconsistent"):
         key, private = draw(gk.rsa_key(1024, 2048)), True
     elif mut == "coordinate":
@@ -372,6 +377,15 @@ def mal_cases(draw):
             c["mut"] = "skip"
         else:
             jwk["oth"] = [{"r": "AQAB", "d": "AQAB", "t": "AQAB"}]
+    elif mut == "empty-number":
+        # a number / coordinate / private value that is present but empty (a zero-length oct secret is a key, these are not)
+        cands = [m for m in ("n", "e", "d", "p", "q", "dp", "dq", "qi", "x", "y") if m in jwk]
+        if not cands:
+            c["mut"] = "skip"
+        else:
+            m = draw(st.sampled_from(cands + (["d"] if "d" in cands else [])))
+            jwk[m] = ""
+            c["member"] = m
     c["jwk"] = jwk
     return c
 
@@ -417,7 +431,7 @@ def run_mal(c) -> dict:
         except rk.JWKError:
             pass
     desc = f"{c['mut']} {m or ''}: JWK {json.dumps(jwk)[:300]}" + (f" with parameters {params!r}" if params else "") + " was imported"
-    key = f"C11:malformed-jwk-accepted:{c['mut']}:{c['kty']}:{m if c['mut'] in ('retype', 'delete', 'coordinate') else ''}"
+    key = f"C11:malformed-jwk-accepted:{c['mut']}:{c['kty']}:{m if c['mut'] in ('retype', 'delete', 'coordinate', 'empty-number') else ''}"
     return {key: desc}
 
 
